@@ -303,9 +303,7 @@ def check(run, repo):
     # record lines must never be classified by a test that depends on user-controlled text
     m = repo.module(TD)
     rfn = m.functions['read_thermdat']
-    for f_ in ('read_thermdat', 'write_thermdat', '_write_line1', '_write_line2', '_write_line3', '_write_line4',
-               '_insert_space', '_read_line1', '_read_line2', '_read_line3', '_read_line4', '_get_fields',
-               '_is_temperature_header', '_read_line_num'):
+    for f_ in ('read_thermdat', 'write_thermdat'):
         run.fn(TD + '.' + f_)
     for ln, (node, txt) in sorted(hazards_seen.items()):
         from ..source import norm
